@@ -97,6 +97,7 @@ class World(object):
         self.pause_req = False          # accepted pause not yet resumed
         self.ever_paused = False
         self.cancel_req = False
+        self.queued_items_tasks = set()
         self.accepted_rerun = False
         self.fault_fired = 0
         self.fault_in = None            # k-th evaluation to fault (countdown)
@@ -598,10 +599,14 @@ class World(object):
             aid = "%s#%d.%d.%d@%s" % (tid, x.visit, x.attempt, i, route)
             if aid in self.inflight:
                 aid = aid + "+dup%d" % self.step
-            self.inflight[aid] = {"x": x, "task": tid, "route": route, "item": i, "state": "running", "delay": t.get("delay") or 0}
+            first_i = "running"
+            if self.o.get("item_first_event") and x.kind != "retry":
+                # the item's action execution is requested (queued) first and reports running later
+                first_i = self.o.get("first_event") or "running"
+            self.inflight[aid] = {"x": x, "task": tid, "route": route, "item": i, "state": first_i, "delay": t.get("delay") or 0}
             it["inflight"].add(i)
             x.state = "running"
-            self.call("update_task_state", tid, route, events.TaskItemActionExecutionEvent(i, "running"))
+            self.call("update_task_state", tid, route, events.TaskItemActionExecutionEvent(i, first_i))
             self.after_call("started")
             x.rec_idx = self.snap["state"]["tasks"].get("%s__r%s" % (tid, route))
             started += 1
@@ -1080,6 +1085,12 @@ class World(object):
             if new_status in TERMINAL_WF:
                 self.terminal_seen = new_status
         if new_status != self.status:
+            if new_status in ("pausing", "paused", "canceling", "canceled"):
+                # with-items tasks whose items are all still queued when a pause/cancel begins
+                for rec in st["sequence"]:
+                    if rec.get("status") in ("requested", "scheduled", "delayed") and \
+                            (self.p["tasks"].get(rec.get("id")) or {}).get("with") is not None:
+                        self.queued_items_tasks.add((rec.get("id"), rec.get("route")))
             self.status_trace.append(new_status)
             if new_status == "failed" and self.status == "pausing":
                 self.failed_while_pausing = True
@@ -1198,9 +1209,13 @@ class World(object):
         if st in ("pausing", "canceling") and not nin:
             kf, tags = self.kf_rerun_after_cancel()
             if not kf:
+                kf, tags = self.kf_queued_items_task()
+            if not kf:
                 kf, tags = self.kf_pending_items()
             if not kf:
                 kf, tags = self.kf_resumed_paused_items()
+            if not kf:
+                kf, tags = self.kf_queued_items_task()
             if not kf:
                 kf, tags = self.kf_action_cancel_items()
             self.report("C02", "ing_has_inflight", "workflow %s with no action in flight" % st, tags=tags, kf=kf)
@@ -1208,7 +1223,8 @@ class World(object):
                 self.report("C10", "canceled_when_drained", "workflow still canceling after the last action reported",
                             tags=tags, kf=kf)
             else:
-                self.report("C09", "paused_when_drained", "workflow still pausing after the last action reported")
+                self.report("C09", "paused_when_drained", "workflow still pausing after the last action reported",
+                            tags=tags, kf=kf)
         if self.pause_req and st in ("running", "resuming", "requested", "scheduled", "delayed") and not self.cancel_req:
             # an accepted pause stays in effect until the operator resumes (or the workflow ends)
             self.report("C09", "pause_holds", "a pause request was accepted and not resumed, yet the workflow reports %s" % st)
@@ -1322,6 +1338,19 @@ class World(object):
                     return "KF-resume-leaves-items-task-paused", ["resume_with_paused_items_task"]
         return None, []
 
+    def kf_queued_items_task(self):
+        """Precise signature: a pause or cancel began while the items of a with-items task were all
+        still queued (task status requested/scheduled/delayed: those rows of the task table take no
+        workflow events, so the task is never told); nothing is in flight any more, the task sits in
+        `running` with items left that are not offered while pausing/canceling."""
+        if self.status in ("pausing", "canceling") and not self.inflight and self.queued_items_tasks:
+            for x in self.ledger.execs:
+                it = x.items
+                if it is not None and x.state == "running" and not it["inflight"] and it.get("n") \
+                        and len(set(it["offered"])) < it["n"] and (x.task, x.route) in self.queued_items_tasks:
+                    return "KF-queued-items-task-not-told-of-pause-or-cancel", ["items_queued_when_pause_or_cancel_began"]
+        return None, []
+
     def kf_action_cancel_items(self):
         """Precise signature: the workflow is canceling because an action was canceled on its own
         (no cancel request reached the tasks), nothing is in flight, and a with-items task that
@@ -1339,7 +1368,13 @@ class World(object):
         kf, tags = self.kf_rerun_after_cancel()
         if kf:
             return kf, tags
+        kf, tags = self.kf_queued_items_task()
+        if kf:
+            return kf, tags
         kf, tags = self.kf_action_cancel_items()
+        if kf:
+            return kf, tags
+        kf, tags = self.kf_queued_items_task()
         if kf:
             return kf, tags
         kf, tags = self.kf_pending_items()
